@@ -333,19 +333,20 @@ def load_one(lit: LineIterator) -> dict:
         inp["mo_kind"], norba, norbb, inp["mo_occs"], inp["mo_coeffs"], inp["mo_energies"], None
     )
     # check number of electrons
-    if mo.nelec != inp["Naelec"] + inp["Nbelec"]:
+    # The occupation numbers are printed with a limited number of digits.
+    if abs(mo.nelec - (inp["Naelec"] + inp["Nbelec"])) > 1e-5:
         raise LoadError(
             f"Number of electrons in MolecularOrbitals ({mo.nelec}) is not equal to "
             f"the sum of 'Naelec' and 'Nbelec' ({inp['Naelec']} + {inp['Nbelec']}).",
             lit.filename,
         )
-    if mo.occsa.sum() != inp["Naelec"]:
+    if abs(mo.occsa.sum() - inp["Naelec"]) > 1e-5:
         raise LoadError(
             f"Number of alpha electrons in MolecularOrbitals ({mo.occsa.sum()}) "
             f"is not equal to the 'Naelec' ({inp['Naelec']}).",
             lit.filename,
         )
-    if mo.occsb.sum() != inp["Nbelec"]:
+    if abs(mo.occsb.sum() - inp["Nbelec"]) > 1e-5:
         raise LoadError(
             f"Number of beta electrons in MolecularOrbitals ({mo.occsb.sum()})"
             f"is not equal to the 'Nbelec' ({inp['Nbelec']}).",
